@@ -92,6 +92,11 @@ def run_cli(binp, workdir, jobs):
             os.remove(os.path.join(workdir, mid))
         except OSError:
             pass
+        if len(src) % 2 == 0:
+            # half of the jobs write onto a path that already holds a LONGER file (an earlier, longer piece): what is left on the
+            # file system afterwards must still be exactly the bytes of this source
+            with open(os.path.join(workdir, mid), "wb") as f:
+                f.write(b"MThd" + bytes([0xAA]) * 100000)
         try:
             p = subprocess.run([binp, mml, mid] + (["--debug"] if debug else []), cwd=workdir, stdout=subprocess.PIPE,
                                stderr=subprocess.DEVNULL, timeout=30)
